@@ -75,11 +75,13 @@ def dropped():
 class Concretisation(object):
     """token -> concrete value; distinct tokens get values that are pairwise different (by same_value)."""
 
-    def __init__(self, seed):
+    def __init__(self, seed, prefer_mutable=False):
         self.rnd = random.Random(seed)
         self.map = {}
         self.order = list(pool())
         self.rnd.shuffle(self.order)
+        if prefer_mutable:  # identity / aliasing checks are only meaningful on non-interned, mutable values
+            self.order.sort(key=lambda v: 0 if isinstance(v, (list, dict, set)) or hasattr(v, '__dict__') else 1)
 
     def value(self, token):
         if token not in self.map:
